@@ -3,7 +3,8 @@ C11 — model of what collection persists and what analysis loads.
 
 Mirrors (tree at /repo HEAD):
   insights/core/spec_factory.py
-     ContentProvider.write                 142-150   `joinLines` ("\n".join, UTF-8, binary write)
+     ContentProvider.write                 142-152   `joinLines` ("\n".join for a list; a str — the content of a
+                                                      split=False command — is written as it is; UTF-8, binary write)
      ContentProvider.content (empty rule)  122-140   `writeText` (empty content under a HostContext raises)
      RawFileProvider.load / write          254-261   `Kind.raw` (cp; bytes in = bytes out)
      TextFileProvider.load                 284-304   `read` (open(..., "r", encoding="utf-8") — NO newline=
@@ -132,6 +133,9 @@ structure Provider where
   image : Option Str := none
   engine : Option Str := none
   containerId : Option Str := none
+  /-- the content is ONE `str`, not a list of lines (a command created with split=False); the single
+      element of `load` is then that string -/
+  unsplit : Bool := false
   /-- outcome of `obj.content` at the moment the serializer asks for it (commands run lazily, there);
       for `Kind.raw` the single element is the file's bytes -/
   load : Except Fault (List Str)
@@ -202,7 +206,7 @@ def docOf (p : Provider) (rel : Str) : ObjDoc :=
   { relativePath := rel
     saveAsSet := (truthy p.saveAs).isSome
     rc := none
-    cmd := if isCmd then p.cmd else none
+    cmd := if isCmd || p.kind == .containerFile then p.cmd else none
     args := if isCmd then p.args else .none
     image := if isCont then p.image else none
     engine := if isCont then p.engine else none
@@ -210,13 +214,18 @@ def docOf (p : Provider) (rel : Str) : ObjDoc :=
 
 /-- the file text a provider's `write` produces, or the exception it raises.
     `host` = the collecting context is a HostContext (empty content is then refused).
-    RawFileProvider.write copies the file without looking at `content`. -/
+    RawFileProvider.write copies the file without looking at `content`.  A `str` content (unsplit
+    command) is not joined. -/
 def writeText (host : Bool) (p : Provider) : Except Fault Str :=
   match p.kind, p.load with
   | .raw, .ok ls => .ok (ls.headD [])
   | .raw, .error f => .error f
   | _, .error f => .error f
-  | _, .ok ls => if host && ls.isEmpty then .error 0 else .ok (joinLines ls)
+  | _, .ok ls =>
+    if p.unsplit then
+      -- `len(content) == 0` of the string; `isinstance(content, six.string_types)`: written as it is
+      (if host && (ls.headD []).isEmpty then .error 0 else .ok (ls.headD []))
+    else if host && ls.isEmpty then .error 0 else .ok (joinLines ls)
 
 /-! ## File system of the archive's data directory -/
 
@@ -250,7 +259,7 @@ structure Loaded where
 
 /-- deserialize_*: `relative_path = rel.lstrip("/")`, `validate()` needs the file to exist (else
     ContentException = `none`), then the kind's deserializer copies ITS fields — the container-file
-    one copies neither cmd nor args, the text/raw/datasource ones only rc. -/
+    one copies cmd (`data.get("cmd")`) but no args, the text/raw/datasource ones only rc. -/
 def deserialize (root : Str) (fs : FS) (d : ResDoc) : Option Loaded :=
   let rp := lstripC sep d.obj.relativePath
   let path := pjoin root rp
@@ -259,7 +268,7 @@ def deserialize (root : Str) (fs : FS) (d : ResDoc) : Option Loaded :=
     let isCont := d.type == .containerFile || d.type == .containerCommand
     some { raw := d.type == .raw, relativePath := rp, path := path
            rc := if d.type == .datasource then none else d.obj.rc
-           cmd := if isCmd then d.obj.cmd else none
+           cmd := if isCmd || d.type == .containerFile then d.obj.cmd else none
            args := if isCmd then d.obj.args else .none
            image := if isCont then d.obj.image else none
            engine := if isCont then d.obj.engine else none
